@@ -378,6 +378,23 @@ func (t *tr) bls(i int, rnd *choice.Src) {
 			t.addf(fmt.Sprintf("verify.badsig.%d", k), "%v %v", ok, err)
 		}
 	}
+	// boundary values of the coordinate and scalar range checks: exactly p, p-1, p+1; r, r-1, r+1
+	for k, d := range []int64{-1, 0, 1} {
+		g1 := curve.G1XNearP(d)
+		agg, err := crypto.AggregateBLSSignatures([]crypto.Signature{g1})
+		t.add(fmt.Sprintf("boundary.g1.agg.%d", k), agg)
+		t.addf(fmt.Sprintf("boundary.g1.agg.err.%d", k), "%v", err != nil)
+		if len(pks) > 0 {
+			ok, err := pks[0].Verify(g1, msg, h)
+			t.addf(fmt.Sprintf("boundary.g1.verify.%d", k), "%v %v", ok, err != nil)
+		}
+		for c := 0; c < 2; c++ {
+			_, err := crypto.DecodePublicKey(crypto.BLSBLS12381, curve.G2XNearP(d, c))
+			t.addf(fmt.Sprintf("boundary.g2.decode.%d.%d", k, c), "%v", err != nil)
+		}
+		_, err = crypto.DecodePrivateKey(crypto.BLSBLS12381, curve.ScalarNearR(d))
+		t.addf(fmt.Sprintf("boundary.sk.decode.%d", k), "%v", err != nil)
+	}
 	_, err := crypto.DecodePrivateKey(crypto.BLSBLS12381, curve.ScalarTooLarge(rnd))
 	t.addf("decode.badsk", "%v", err != nil)
 	// threshold key generation and reconstruction
